@@ -13,25 +13,38 @@ namespace X86.C02
 open X86 X86.Spec X86.C01
 
 /-- **map_to error ⇒ no mapping changes** (any mapper kind, page size, parent flags, allocator
-behaviour: failure of the 1st, 2nd or 3rd request, huge parent, page already mapped). -/
+behaviour: failure of the 1st, 2nd or 3rd request, huge parent, page already mapped; leaf flags with or
+without `PRESENT`). -/
 theorem map_error_no_change (k : Kind) (s : St) (p4 : Word) (parents : List Nat) (li : Nat) (huge : Bool) (sz : Nat)
     (frame flags pflags : Word)
     (sh : PageShape parents huge sz) (hinv : Inv s.mem p4) (hpi : IdxOK parents) (hli : li < 512)
-    (hpf : ParentFlagsOK pflags) (hfl : if huge then LeafFlagsHuge flags else LeafFlags4K flags)
+    (hpf : ParentFlagsOK pflags) (hfl : if huge then LeafBitsHuge flags else LeafBits4K flags)
     (hfr : FrameOK sz frame) (hal : AllocsOK s.mem p4 s.allocs)
     (e : MapErr) (s' : St) (h : mapTo k s p4 parents li huge frame flags pflags = (.ok (.error e), s')) :
     Inv s'.mem p4 ∧ ∀ va, (walk s'.mem p4 va).map Xlat.core = (walk s.mem p4 va).map Xlat.core := by
-  have := map_to_spec k s p4 parents li huge sz frame flags pflags sh hinv hpi hli hpf hfl hfr hal
-  rw [h] at this; exact this
+  have := map_to_full k s p4 parents li huge sz frame flags pflags sh hinv hpi hpf hfl hfr hal
+  rw [h] at this; exact ⟨this.inv, this.core⟩
 
-/-- `map_to` never panics when the allocator honours its contract. -/
+/-- `PageAlreadyMapped` is reported only if the page's slot holds a non-zero entry — present or not: a
+page mapped without `PRESENT` cannot be mapped over. -/
+theorem map_already_mapped_slot_used (k : Kind) (s : St) (p4 : Word) (parents : List Nat) (li : Nat) (huge : Bool)
+    (sz : Nat) (frame flags pflags : Word)
+    (sh : PageShape parents huge sz) (hinv : Inv s.mem p4) (hpi : IdxOK parents)
+    (hpf : ParentFlagsOK pflags) (hfl : if huge then LeafBitsHuge flags else LeafBits4K flags)
+    (hfr : FrameOK sz frame) (hal : AllocsOK s.mem p4 s.allocs)
+    (s' : St) (h : mapTo k s p4 parents li huge frame flags pflags = (.ok (.error .alreadyMapped), s')) :
+    ∃ t, tblAt s'.mem p4 parents = some t ∧ s'.mem t li ≠ 0#64 := by
+  have := map_to_full k s p4 parents li huge sz frame flags pflags sh hinv hpi hpf hfl hfr hal
+  rw [h] at this; exact this.used rfl
+
+/-- `map_to` never panics when the allocator honours its contract (leaf flags with or without `PRESENT`). -/
 theorem map_no_panic (k : Kind) (s : St) (p4 : Word) (parents : List Nat) (li : Nat) (huge : Bool) (sz : Nat)
     (frame flags pflags : Word)
     (sh : PageShape parents huge sz) (hinv : Inv s.mem p4) (hpi : IdxOK parents) (hli : li < 512)
-    (hpf : ParentFlagsOK pflags) (hfl : if huge then LeafFlagsHuge flags else LeafFlags4K flags)
+    (hpf : ParentFlagsOK pflags) (hfl : if huge then LeafBitsHuge flags else LeafBits4K flags)
     (hfr : FrameOK sz frame) (hal : AllocsOK s.mem p4 s.allocs) :
     (mapTo k s p4 parents li huge frame flags pflags).1 ≠ .panic := by
-  have := map_to_spec k s p4 parents li huge sz frame flags pflags sh hinv hpi hli hpf hfl hfr hal
+  have := map_to_full k s p4 parents li huge sz frame flags pflags sh hinv hpi hpf hfl hfr hal
   intro hp
   cases hm : mapTo k s p4 parents li huge frame flags pflags with
   | mk res s' =>
